@@ -407,7 +407,7 @@ pub fn matrix_lane(ctx: &Ctx) -> Report {
         return rep;
     }
     let mut rng = Rng::new(ctx.seed ^ 0xc17);
-    let reps = if ctx.tiny { 1 } else { ctx.n(1, 40) as usize };
+    let reps = if ctx.tiny { 1 } else { ctx.n(3, 60) as usize };
     let mut setups = matrix(&mut rng, reps);
     // the first TLS connection of the process differs from run to run (process-wide state such as a
     // memoised connector would otherwise always be initialised by the same cell)
